@@ -136,7 +136,16 @@ func ruleSetOrder(c *Ctx, r *Report) {
 							skip = true
 						}
 					case *ast.ReturnStmt:
-						skip = true
+						// leaving with an error fails the whole call: the notification is
+						// not skipped silently.
+						for _, res := range x.Results {
+							if isNilIdent(info, res) {
+								skip = true
+							}
+						}
+						if len(x.Results) == 0 {
+							skip = true
+						}
 					}
 					return true
 				})
